@@ -113,6 +113,14 @@ def module_text(p):
         parts.append('P%d ::= SEQUENCE { a INTEGER (0..%d), b BOOLEAN, c OCTET STRING (SIZE (%d)) }'
                      % (i, i + 1, i % 7 + 1))
     parts.append('END')
+    eol = p.get('eol', ' ')
+    if eol != ' ':
+        # line-oriented layout with the three end-of-line conventions; "--" comments whose end matters: what follows
+        # the end of line is source text (a cached compile that reads the files differently from an uncached one -
+        # bytes vs text mode - sees another module)
+        parts[2] = ('S ::= SEQUENCE { x INTEGER -- the range follows' + eol + ' (0..%d) -- , y BOOLEAN' + eol +
+                    ', e E DEFAULT %s, s UTF8String DEFAULT "%s" }') % (p['hi'], names[0], DEFAULTS[p['dflt']])
+        return eol.join(parts).encode('utf-8')
     return ' '.join(parts).encode('utf-8')
 
 
@@ -479,7 +487,8 @@ def gen_history(rng, nops):
 
     def new_doc():
         p = dict(enum=rng.randrange(len(ENUMS)), hi=rng.choice([1, 7, 300]), dflt=rng.randrange(len(DEFAULTS)),
-                 any=int(rng.random() < .85), hidden=int(rng.random() < .4))
+                 any=int(rng.random() < .85), hidden=int(rng.random() < .4),
+                 eol=rng.choice([' ', ' ', ' ', '\n', '\r\n', '\r', '\r']))
         docs.append(module_text(p))
         return docs[-1]
 
